@@ -159,11 +159,14 @@ def tyAttr (ty : Ty) : V Nat :=
     else newAttr (.fixed (atoi n.text) none)
   | .dyn _ => newAttr .dyn
 
-/-- `AddMetaData` -/
-def addMeta (m : MMeta) : V Unit := do
-  let s ← get
-  if (findMeta s m.name).isSome then addDiag m.line ("Duplicate metadata definition for " ++ m.name)
-  else set { s with metas := s.metas ++ [m] }
+def VState.diag (s : VState) (line : Nat) (msg : String) : VState := { s with diags := s.diags ++ [(line, msg)] }
+
+/-- `AddMetaData` as a state function -/
+def addMetaS (m : MMeta) (s : VState) : VState :=
+  if (findMeta s m.name).isSome then s.diag m.line ("Duplicate metadata definition for " ++ m.name)
+  else { s with metas := s.metas ++ [m] }
+
+def addMeta (m : MMeta) : V Unit := modify (addMetaS m)
 
 def optionNames : List String :=
   ["ArrayPrefixLenType", "FixedStringPadChar", "FixedStringPadFromLeft", "GoModule", "GoPackage", "JavaPackage", "LittleEndian", "StringPrefixLenType"]
@@ -176,18 +179,18 @@ def optionValues : String → Option (List String)
   | "FixedStringPadChar" => some ["'0'", "' '", "'\x00'"]
   | _ => none
 
-/-- `AddOption` -/
-def addOption (name value : String) (line : Nat) : V Unit := do
+/-- `AddOption` as a state function -/
+def addOptionS (name value : String) (line : Nat) (s : VState) : VState :=
   match optionValues name with
+  | none => s.diag line ("Option " ++ name ++ " is not allowed in this context, Expected one of:" ++ ",".intercalate optionNames)
   | some values =>
-    if !values.isEmpty && !values.contains value then
-      addDiag line ("Option " ++ name ++ " is not allowed to be " ++ value ++ ", Expected one of:" ++ ",".intercalate values)
-  | none =>
-    addDiag line ("Option " ++ name ++ " is not allowed in this context, Expected one of:" ++ ",".intercalate optionNames)
-    return
-  let s ← get
-  if (s.options.lookup name).isSome then addDiag line ("Option " ++ name ++ " is already defined")
-  else set { s with options := s.options ++ [(name, value)] }
+    let s1 := if !values.isEmpty && !values.contains value then
+        s.diag line ("Option " ++ name ++ " is not allowed to be " ++ value ++ ", Expected one of:" ++ ",".intercalate values)
+      else s
+    if (s1.options.lookup name).isSome then s1.diag line ("Option " ++ name ++ " is already defined")
+    else { s1 with options := s1.options ++ [(name, value)] }
+
+def addOption (name value : String) (line : Nat) : V Unit := modify (addOptionS name value line)
 
 def trimQuotes (s : String) : String :=
   String.ofList (((s.toList.dropWhile (· = '"')).reverse.dropWhile (· = '"')).reverse)
@@ -353,15 +356,17 @@ def visitPacketDef (p : PacketDef) : V MPacket := do
   pure { name := p.name.text, root := isRoot, lengthField := lengthIdx.map fun i => fieldsArr[i]!.name,
          fields := fieldsArr, fieldMap := fieldMap, matchFields := matchFields, line := p.start.line }
 
-/-- `AddPacket` -/
-def addPacket (p : MPacket) : V Unit := do
-  let s ← get
-  if s.packets.any (·.name = p.name) then addDiag p.line ("Duplicate packet definition for " ++ p.name)
-  else do
-    set { s with packets := s.packets ++ [p] }
+/-- `AddPacket` as a state function -/
+def addPacketS (p : MPacket) (s : VState) : VState :=
+  if s.packets.any (·.name = p.name) then s.diag p.line ("Duplicate packet definition for " ++ p.name)
+  else
+    let s1 := { s with packets := s.packets ++ [p] }
     if p.root then
-      if s.root.isSome then addDiag p.line "Multiple root packets are not allowed"
-      else modify fun s => { s with root := some p.name }
+      if s.root.isSome then s1.diag p.line "Multiple root packets are not allowed"
+      else { s1 with root := some p.name }
+    else s1
+
+def addPacket (p : MPacket) : V Unit := modify (addPacketS p)
 
 /-- `ResolveDependencies` (top-level fields only) -/
 def resolveDeps : V Unit := do
